@@ -204,7 +204,7 @@ async fn send_s(srv: &Server, proto: u64, r: &LReq, variant: u64) -> (String, Wi
 async fn send(srv: &Server, proto: u64, r: &LReq, variant: u64) -> Wire { send_s(srv, proto, r, variant).await.1 }
 
 /// malformed requests that mention key k: must be answered with a protocol-level error and consume nothing
-async fn send_malformed(srv: &Server, proto: u64, r: &LReq, kind: u64) -> (String, String, Wire) {
+async fn send_malformed(srv: &Server, proto: u64, r: &LReq, kind: u64) -> (String, String, Wire, Option<LReq>) {
     let key_json = serde_json::to_string(&r.key).unwrap();
     match proto {
         0 => {
@@ -219,11 +219,14 @@ async fn send_malformed(srv: &Server, proto: u64, r: &LReq, kind: u64) -> (Strin
                 7 => ("negative quantity", http_post(&format!("{{\"key\":{key_json},\"max_burst\":{},\"count_per_period\":{},\"period\":{},\"quantity\":-1}}", r.b, r.count, r.period))),
                 _ => ("key not a string", http_post(&format!("{{\"key\":17,\"max_burst\":{},\"count_per_period\":{},\"period\":{}}}", r.b, r.count, r.period))),
             };
-            (format!("http: {desc}"), sent_http(&raw), with_timeout(async { parse_http(http_raw(srv.http, &raw, false).await) }).await)
+            // only the invalid-limits and negative-quantity bodies reach the limiter (which rejects them)
+            let reaches = match kind % 9 { 6 => Some(LReq { b: 0, q: None, ..r.clone() }), 7 => Some(LReq { q: Some(-1), ..r.clone() }), _ => None };
+            (format!("http: {desc}"), sent_http(&raw), with_timeout(async { parse_http(http_raw(srv.http, &raw, false).await) }).await, reaches)
         }
         1 => {
             let bad = match kind % 3 { 0 => LReq { b: 0, ..r.clone() }, 1 => LReq { q: Some(-1), ..r.clone() }, _ => LReq { period: -5, ..r.clone() } };
-            (format!("grpc: invalid {:?}", (bad.b, bad.period, bad.q)), sent_grpc(&bad), with_timeout(grpc_req(srv.grpc, &bad)).await)
+            let reaches = Some(LReq { q: Some(bad.q.unwrap_or(0)), ..bad.clone() });
+            (format!("grpc: invalid {:?}", (bad.b, bad.period, bad.q)), sent_grpc(&bad), with_timeout(grpc_req(srv.grpc, &bad)).await, reaches)
         }
         _ => {
             let k = &r.key;
@@ -238,14 +241,33 @@ async fn send_malformed(srv: &Server, proto: u64, r: &LReq, kind: u64) -> (Strin
                 6 => ("unknown command", bulk(&["THROTTLEX".into(), k.clone(), r.b.to_string(), r.count.to_string(), r.period.to_string()])),
                 _ => ("decimal quantity", bulk(&["THROTTLE".into(), k.clone(), r.b.to_string(), r.count.to_string(), r.period.to_string(), "1.0".into()])),
             };
-            (format!("resp: {desc}"), sent_resp(&raw), with_timeout(resp_exchange(srv.redis, &raw)).await)
+            let reaches = match kind % 8 { 4 => Some(LReq { period: 0, q: None, ..r.clone() }), 5 => Some(LReq { q: Some(-3), ..r.clone() }), _ => None };
+            (format!("resp: {desc}"), sent_resp(&raw), with_timeout(resp_exchange(srv.redis, &raw)).await, reaches)
         }
     }
 }
 
 const RATES: &[(i64, i64)] = &[(1, 1000), (1, 3600), (2, 2000), (3, 3000), (1, 86400), (5, 50000), (1, 100)];
 
+/// the library's own answer for the request that reaches the limiter (documented defaults applied), at model time t0 + i ns,
+/// in whole seconds; gRPC durations capped at int32 (known finding grpc-int32-range)
+fn lib_answer(lim: &mut throttlecrab::RateLimiter<throttlecrab::PeriodicStore>, tick: &mut u64, proto: u64, reaches: &Option<LReq>) -> String {
+    let r = match reaches { None => return "{\"err\":\"refused before the limiter\"}".into(), Some(r) => r };
+    let q = r.q.unwrap_or(if proto == 1 { 0 } else { 1 });
+    *tick += 1;
+    let ts = std::time::UNIX_EPOCH + Duration::from_nanos(1_700_000_000_000_000_000 + *tick);
+    match lim.rate_limit(&r.key, r.b, r.count, r.period, q, ts) {
+        Err(e) => format!("{{\"err\":{:?}}}", e.to_string()),
+        Ok((a, res)) => {
+            let cap = |x: u64| -> i64 { if proto == 1 { (x as i64).min(i32::MAX as i64) } else { x as i64 } };
+            format!("{{\"a\":{a},\"lim\":{},\"rem\":{},\"reset\":{},\"retry\":{}}}", res.limit, res.remaining, cap(res.reset_after.as_secs()), cap(res.retry_after.as_secs()))
+        }
+    }
+}
+
 async fn fidelity(srv: &Server, rng: &mut Rng, cases: u64, tag: &str) {
+    let mut lim = throttlecrab::RateLimiter::new(throttlecrab::PeriodicStore::builder().capacity(1000).cleanup_interval(Duration::from_secs(1_000_000_000)).build());
+    let mut tick: u64 = 0;
     // canonical witness of the known finding grpc-int32-range (findings/F8-grpc-int32-range.json), replayed first
     {
         let r = LReq { key: format!("{tag}witness"), b: 3, count: 1, period: 1000000000, q: Some(3) };
@@ -278,11 +300,13 @@ async fn fidelity(srv: &Server, rng: &mut Rng, cases: u64, tag: &str) {
             let r = LReq { key, b, count, period, q };
             if rng.chance(1, 4) {
                 let kind = rng.below(1000);
-                let (desc, sent, w) = send_malformed(srv, proto, &r, kind).await;
-                ops.push(format!("{{\"proto\":{proto},\"malformed\":{:?},\"req\":{},\"sent\":{},\"wire\":{}}}", desc, r.json(), sent, w.json()));
+                let (desc, sent, w, reaches) = send_malformed(srv, proto, &r, kind).await;
+                let lib = lib_answer(&mut lim, &mut tick, proto, &reaches);
+                ops.push(format!("{{\"proto\":{proto},\"malformed\":{:?},\"req\":{},\"sent\":{},\"wire\":{},\"lib\":{lib}}}", desc, r.json(), sent, w.json()));
             } else {
                 let (sent, w) = send_s(srv, proto, &r, variant).await;
-                ops.push(format!("{{\"proto\":{proto},\"variant\":{variant},\"req\":{},\"sent\":{},\"wire\":{}}}", r.json(), sent, w.json()));
+                let lib = lib_answer(&mut lim, &mut tick, proto, &Some(r.clone()));
+                ops.push(format!("{{\"proto\":{proto},\"variant\":{variant},\"req\":{},\"sent\":{},\"wire\":{},\"lib\":{lib}}}", r.json(), sent, w.json()));
             }
         }
         println!("{{\"mode\":\"fidelity\",\"case\":{c},\"elapsed_ms\":{},\"ops\":[{}]}}", t0.elapsed().as_millis(), ops.join(","));
